@@ -93,6 +93,8 @@ add("C19", "netbed", "property-based testing of inbound scripts from a scripted 
     "Inbound frames in pass-through form (header-mode decoding is C06/C14's subject).",
     "DESIGN.md §7 C19")
 
+FUZZ = {"C01": "c01", "C02": "decode", "C03": "c03, decode", "C05": "c05", "C08": "c08", "C09": "c09", "C10": "c10, c10id", "C12": "c12",
+        "C13": "c13, decode", "C14": "c14seq, disthdr", "C20": "c20range, c20terms"}
 hooks_commits = []
 try:
     out = subprocess.run(["git", "-C", "/repo", "log", "--format=%H %s"], capture_output=True, text=True).stdout
@@ -117,6 +119,8 @@ m = {
          "kind_free_text": "baton-passing deterministic scheduler for OS threads driven through the sync_point hook, stateless DFS over schedules"},
         {"name": "isolate", "path": "harness/verif/src/isolate.rs", "serves_properties": ["C02"],
          "kind_free_text": "isolated worker process (2 MiB-stack threads, counting allocator) so crashes and blow-ups are observed, not suffered"},
+        {"name": "fuzz", "path": "harness/fuzz", "serves_properties": sorted(FUZZ),
+         "kind_free_text": "cargo-fuzz package with one libFuzzer binary (fz); VERIF_FUZZ_TARGET selects one of 14 targets defined in harness/verif/src/fuzzbridge.rs; bytes are mapped onto the proptest campaigns' Case types by a total serde deserializer (fuzzde.rs) and clamped into the generators' domains; corpora are seeded from the proptest generators; artifacts are re-evaluated in-process"},
         {"name": "netbed", "path": "harness/verif/src/netbed.rs", "serves_properties": ["C04", "C06", "C07", "C17", "C18", "C19"],
          "kind_free_text": "network test-bed: fake EPMD, scripted peer over loopback, harness-owned virtual clock (paused tokio clock with auto-advance inhibited), kernel-queue settling, panic capture, real-time watchdog"},
         {"name": "refmodel", "path": "harness/refmodel", "serves_properties": sorted(CHECKS),
@@ -129,6 +133,10 @@ m = {
 for i in ALL:
     if i in CHECKS:
         c = CHECKS[i]
+        if i in FUZZ:
+            c = dict(c)
+            c["technique"] += f"; thorough tier adds coverage-guided fuzzing (libFuzzer via cargo-fuzz, ASan, structure-aware byte->case mapping, the same oracle inside the target; targets: {FUZZ[i]})"
+            c["note"] += " Fuzz campaigns are pinned only approximately by -seed; a saved artifact is re-evaluated through the deterministic oracle before it counts."
         m["checks"].append({
             "property_id": i,
             "quick_cmd": f"./check {i} quick",
